@@ -4,19 +4,19 @@ CONSTANTS
   Biases = {3, 4}
   Hidden = {7, 8}
   OutSet = {5, 6}
-  Shapes = {{1, 3, 5, 7}, {1, 3, 4, 5}}
+  Shapes = {{1, 3, 5, 7}}
   Weights <- W1
-  TdFlags = {FALSE}
+  TdFlags = {FALSE, TRUE}
   InVals <- V2
   OrderKinds = {"BIOH"}
   ActSchemes <- SchemesQuick
-  LinkCaps = {3}
+  LinkCaps = {4}
   SealAtCap = FALSE
   Canonical = TRUE
   FwdKs = {1, 2}
-  RelaxKs = {2}
+  RelaxKs = {3}
   UseRec = TRUE
-  UseAct = FALSE
+  UseAct = TRUE
   MaxHist = 2
   MaxSuf = 2
   Limit = 1000
